@@ -31,7 +31,9 @@ Types == {"B", "I", "F", "S", "T", "D", "TM", "DU", "G", "GEO", "L", "N"}
 Cons(t) ==
   CASE t = "I" -> { ILit, IntL(-7301), Un("neg", n), C1("length", s), C2("indexof", s, SLit), C1("year", d), C1("month", d), C1("day", d),
                     C1("hour", d), C1("minute", d), C1("second", d), C1("totaloffsetminutes", d), Bin("add", n, ILit), Bin("mod", n, ILit),
-                    Bin("mul", n, ILit), P("a", <<"p">>), P("a", <<"b", "c">>), C1("length", l), C1("length", Lst(<<ILit, IntL(7302)>>)) }
+                    Bin("mul", n, ILit), P("a", <<"p">>), P("a", <<"b", "c">>),
+                    \* a second relationship into the same model, alone and next to the first
+                    P("a2", <<"p">>), Bin("add", P("a", <<"p">>), P("a2", <<"p">>)), Bin("sub", P("a2", <<"b", "c">>), P("a", <<"b", "c">>)), C1("length", l), C1("length", Lst(<<ILit, IntL(7302)>>)) }
     [] t = "F" -> { FLit, Lit("Float", "7.301e3"), C1("round", f), C1("floor", f), C1("ceiling", f), C1("fractionalseconds", d), C1("totalseconds", du),
                     G("distance", <<g, GEOLit>>), G("length", <<g>>), Bin("div", f, FLit), Bin("sub", f, FLit) }
     [] t = "S" -> { SLit, StrL(<<113, 39, 55, 120>>), C1("tolower", s), C1("toupper", s), C1("trim", s), C2("concat", s, SLit), C2("substring", s, ILit),
